@@ -420,3 +420,292 @@ Proof.
     + intros l sr Hl. apply in_map_iff in Hl as [x [Hx _]]. discriminate.
     + intros q [].
 Qed.
+
+(* ------------------------------------------------------------------------------------------- *)
+(* Histories. *)
+
+Lemma snd_run_cons : forall st o ops,
+  snd (run st (o :: ops)) = snd (step st o) :: snd (run (fst (step st o)) ops).
+Proof. intros; cbn [run]. destruct (step st o) as [s1 x]. cbn [fst snd]. destruct (run s1 ops) as [s2 xs]. reflexivity. Qed.
+
+Lemma fst_run_cons : forall st o ops, fst (run st (o :: ops)) = fst (run (fst (step st o)) ops).
+Proof. intros; cbn [run]. destruct (step st o) as [s1 x]. cbn [fst snd]. destruct (run s1 ops) as [s2 xs]. reflexivity. Qed.
+
+Lemma run_firstn : forall ops st k, snd (run st (firstn k ops)) = firstn k (snd (run st ops)).
+Proof.
+  induction ops as [|o ops IH]; intros st k.
+  - destruct k; reflexivity.
+  - destruct k; [reflexivity|]. cbn [firstn]. rewrite !snd_run_cons. cbn [firstn]. rewrite IH. reflexivity.
+Qed.
+
+Lemma run_J : forall ops st log0, J st log0 -> J (fst (run st ops)) (log0 ++ all_reqs (snd (run st ops))).
+Proof.
+  induction ops as [|o ops IH]; intros st log0 HJ.
+  - cbn. rewrite app_nil_r. exact HJ.
+  - rewrite fst_run_cons, snd_run_cons. unfold all_reqs; cbn [flat_map]. rewrite app_assoc.
+    apply IH. apply step_J. exact HJ.
+Qed.
+
+Lemma run_nth : forall ops st k x,
+  nth_error (snd (run st ops)) k = Some x ->
+  exists o, nth_error ops k = Some o /\ x = snd (step (fst (run st (firstn k ops))) o).
+Proof.
+  induction ops as [|o ops IH]; intros st k x H.
+  - destruct k; discriminate.
+  - rewrite snd_run_cons in H. destruct k.
+    + cbn in H. injection H as <-. exists o. split; reflexivity.
+    + cbn [nth_error] in H. destruct (IH _ _ _ H) as [o' [H1 H2]]. exists o'. split; [exact H1|].
+      cbn [firstn]. rewrite fst_run_cons. exact H2.
+Qed.
+
+Lemma reqs_of_step_nonround : forall st o, (forall r, o <> ORound r) -> reqs_of (snd (step st o)) = [].
+Proof.
+  intros st [r|f|p] H.
+  - exfalso; eapply H; reflexivity.
+  - reflexivity.
+  - cbn [step snd]. apply reqs_of_prepare.
+Qed.
+
+Lemma out_round_is_round : forall st o err reqs relays nodes,
+  snd (step st o) = OutRound err reqs relays nodes -> exists r, o = ORound r.
+Proof.
+  intros st [r|f|p] err reqs relays nodes H.
+  - eauto.
+  - discriminate.
+  - cbn [step snd] in H. unfold step_prepare in H.
+    destruct (p_acct_err p); [discriminate|]. destruct (p_vals p); discriminate.
+Qed.
+
+(* what a round's output satisfies, relative to the log of the signing requests made before it *)
+Definition RoundFacts (logi : list sigreq) (r : round_in) (reqs : list sigreq) (relays : relaymap)
+           (nodes : list (option (list sreg))) : Prop :=
+  (forall a sr, mem_rm relays a sr ->
+     Emitted logi reqs sr /\ reached (kind_of (r_relays r) a) = true
+     /\ exists v rc, src_rc (r_vals r) v rc /\ rc_addr rc = a /\ sr_content sr = content_of (v_pub v) rc)
+  /\ (forall l sr, In (Some l) nodes -> In sr l ->
+     Emitted logi reqs sr
+     /\ exists v rc, src_first (r_vals r) v rc /\ sr_content sr = content_of (v_pub v) rc)
+  /\ (forall q, In q reqs ->
+     exists v rc, src_rc (r_vals r) v rc /\ q_acct q = v_acct v /\ q_content q = content_of (v_pub v) rc
+                  /\ q_stamp q = r_now r).
+
+Lemma history_round : forall ops st log0 i r err reqs relays nodes,
+  J st log0 ->
+  nth_error ops i = Some (ORound r) ->
+  nth_error (snd (run st ops)) i = Some (OutRound err reqs relays nodes) ->
+  RoundFacts (log0 ++ all_reqs (firstn i (snd (run st ops)))) r reqs relays nodes.
+Proof.
+  intros ops st log0 i r err reqs relays nodes HJ Hop Hout.
+  destruct (run_nth _ _ _ _ Hout) as [o [H1 H2]]. rewrite Hop in H1. injection H1 as <-.
+  rewrite <- run_firstn. cbn [step] in H2. symmetry in H2.
+  exact (step_round_emitted _ _ _ _ _ _ _ (run_J _ _ _ HJ) H2).
+Qed.
+
+Lemma In_all_reqs : forall outs q, In q (all_reqs outs) ->
+  exists k x, nth_error outs k = Some x /\ In q (reqs_of x).
+Proof.
+  induction outs as [|x outs IH]; intros q H; [destruct H|].
+  unfold all_reqs in H; cbn [flat_map] in H. apply in_app_iff in H as [H|H].
+  - exists 0%nat, x. split; [reflexivity|exact H].
+  - destruct (IH _ H) as [k [y [H1 H2]]]. exists (S k), y. split; [exact H1|exact H2].
+Qed.
+
+(* every signing request of a history was made in some round, for a relay entry of a validator
+   of that round, by that validator's account, at that round's time *)
+Lemma history_req : forall ops st log0 q,
+  J st log0 -> In q (all_reqs (snd (run st ops))) ->
+  exists k r v rc, nth_error ops k = Some (ORound r) /\ src_rc (r_vals r) v rc
+                   /\ q_acct q = v_acct v /\ q_content q = content_of (v_pub v) rc /\ q_stamp q = r_now r.
+Proof.
+  intros ops st log0 q HJ Hq. apply In_all_reqs in Hq as [k [x [Hx Hq]]].
+  destruct x as [err reqs relays nodes|relays|err nodes]; try destruct Hq.
+  destruct (run_nth _ _ _ _ Hx) as [o [H1 H2]]. symmetry in H2.
+  destruct (out_round_is_round _ _ _ _ _ _ H2) as [r ->].
+  destruct (history_round _ _ _ _ _ _ _ _ _ HJ H1 Hx) as [_ [_ Hr]].
+  destruct (Hr q Hq) as [v [rc H]]. exists k, r, v, rc. tauto.
+Qed.
+
+Lemma firstn_S_nth {A} : forall (l : list A) i x, nth_error l i = Some x -> firstn (S i) l = firstn i l ++ [x].
+Proof.
+  induction l as [|y l IH]; intros i x H; destruct i; try discriminate.
+  - cbn in H. injection H as <-. reflexivity.
+  - cbn [nth_error] in H. change (firstn (S (S i)) (y :: l)) with (y :: firstn (S i) l).
+    rewrite (IH _ _ H). reflexivity.
+Qed.
+
+Lemma all_reqs_app : forall l1 l2, all_reqs (l1 ++ l2) = all_reqs l1 ++ all_reqs l2.
+Proof. intros; unfold all_reqs; apply flat_map_app. Qed.
+
+Lemma In_all_reqs_firstn : forall outs n q, In q (all_reqs (firstn n outs)) -> In q (all_reqs outs).
+Proof.
+  intros outs n q H. rewrite <- (firstn_skipn n outs) at 1. rewrite all_reqs_app. apply in_app_iff; left; exact H.
+Qed.
+
+Lemma out_req : forall ops st log0 k x q,
+  J st log0 -> nth_error (snd (run st ops)) k = Some x -> In q (reqs_of x) ->
+  exists r v rc, nth_error ops k = Some (ORound r) /\ src_rc (r_vals r) v rc
+                 /\ q_acct q = v_acct v /\ q_content q = content_of (v_pub v) rc /\ q_stamp q = r_now r.
+Proof.
+  intros ops st log0 k x q HJ Hx Hq.
+  destruct x as [err reqs relays nodes|relays|err nodes]; try destruct Hq.
+  destruct (run_nth _ _ _ _ Hx) as [o [H1 H2]]. symmetry in H2.
+  destruct (out_round_is_round _ _ _ _ _ _ H2) as [r ->].
+  destruct (history_round _ _ _ _ _ _ _ _ _ HJ H1 Hx) as [_ [_ Hr]].
+  destruct (Hr q Hq) as [v [rc H]]. exists r, v, rc. tauto.
+Qed.
+
+(* ------------------------------------------------------------------------------------------- *)
+(* Content and signer. *)
+
+Lemma content_and_signer : forall acct_of ops, accts_ok acct_of ops ->
+  forall i r err reqs relays nodes,
+  nth_error ops i = Some (ORound r) ->
+  nth_error (snd (run init ops)) i = Some (OutRound err reqs relays nodes) ->
+  forall a sr, mem_rm relays a sr ->
+    reached (kind_of (r_relays r) a) = true /\
+    exists v res rc,
+      In v (r_vals r) /\ v_res v = Some res /\ In rc (rs_relays res) /\ rc_addr rc = a
+      /\ sr_content sr = {| ct_fee := rc_fee rc; ct_gas := rc_gas rc; ct_pub := v_pub v |}
+      /\ sr_sig sr = mk_sig (v_acct v) (sr_content sr) (sr_stamp sr)
+      /\ In {| q_acct := v_acct v; q_content := sr_content sr; q_stamp := sr_stamp sr; q_ok := true |}
+            (all_reqs (firstn (S i) (snd (run init ops)))).
+Proof.
+  intros acct_of ops Hacc i r err reqs relays nodes Hop Hout a sr Hm.
+  destruct (history_round _ _ [] _ _ _ _ _ _ J_init Hop Hout) as [Hrel _]. cbn [app] in Hrel.
+  destruct (Hrel _ _ Hm) as [[r1 [r2 [q [E1 [E2 E3]]]]] [Hreach [v [rc [[Hv [res [Hres Hrc]]] [Ha Hc]]]]]].
+  split; [exact Hreach|]. exists v, res, rc. repeat (split; [assumption|]).
+  apply last_ok_some in E2 as [Hin [Hok Hpub]].
+  assert (Hin' : In q (all_reqs (firstn (S i) (snd (run init ops))))).
+  { rewrite (firstn_S_nth _ _ _ Hout), all_reqs_app. unfold all_reqs at 2; cbn [flat_map reqs_of].
+    rewrite app_nil_r, E1. apply in_app_iff in Hin as [Hin|Hin]; apply in_app_iff; [left; exact Hin|right].
+    apply in_app_iff; left; exact Hin. }
+  assert (Hacct : q_acct q = v_acct v).
+  { destruct (history_req _ _ [] _ J_init (In_all_reqs_firstn _ _ _ Hin')) as [k [r' [v' [rc' [Hk [[Hv' _] [Hq1 [Hq2 _]]]]]]]].
+    rewrite Hq1. rewrite (Hacc (ORound r') v' (nth_error_In _ _ Hk) Hv').
+    rewrite (Hacc (ORound r) v (nth_error_In _ _ Hop) Hv). f_equal.
+    assert (Hcc : sr_content sr = q_content q) by (rewrite E3; reflexivity).
+    rewrite Hc, Hq2 in Hcc. apply (f_equal ct_pub) in Hcc. cbn in Hcc. symmetry; exact Hcc. }
+  subst sr. cbn [reg_of_req sr_content sr_stamp sr_sig]. rewrite Hacct. split; [reflexivity|].
+  destruct q as [qa qc qs qo]; cbn in *. subst. exact Hin'.
+Qed.
+
+(* ------------------------------------------------------------------------------------------- *)
+(* Reuse. *)
+
+Lemma reuse_unchanged : forall ops i r err reqs relays nodes,
+  nth_error ops i = Some (ORound r) ->
+  nth_error (snd (run init ops)) i = Some (OutRound err reqs relays nodes) ->
+  forall a sr, mem_rm relays a sr -> sr_stamp sr <> r_now r ->
+    exists q, last_ok (all_reqs (firstn i (snd (run init ops)))) (ct_pub (sr_content sr)) = Some q
+              /\ sr = reg_of_req q.
+Proof.
+  intros ops i r err reqs relays nodes Hop Hout a sr Hm Hne.
+  destruct (history_round _ _ [] _ _ _ _ _ _ J_init Hop Hout) as [Hrel [_ Hrq]]. cbn [app] in Hrel.
+  destruct (Hrel _ _ Hm) as [[r1 [r2 [q [E1 [E2 E3]]]]] _].
+  rewrite last_ok_app in E2. destruct (last_ok r1 (ct_pub (sr_content sr))) as [q'|] eqn:E.
+  - injection E2 as ->. apply last_ok_some in E as [Hin _]. exfalso. apply Hne.
+    destruct (Hrq q) as [v [rc [_ [_ [_ Hs]]]]]; [rewrite E1; apply in_app_iff; left; exact Hin|].
+    rewrite E3. exact Hs.
+  - exists q. split; assumption.
+Qed.
+
+(* index lemmas *)
+Lemma nth_error_skipn' {A} : forall n (l : list A) k, nth_error (skipn n l) k = nth_error l (n + k).
+Proof.
+  induction n as [|n IH]; intros l k; [reflexivity|].
+  destruct l; [destruct k; reflexivity|]. cbn. apply IH.
+Qed.
+
+Lemma nth_error_firstn' {A} : forall m (l : list A) k x,
+  nth_error (firstn m l) k = Some x -> (k < m)%nat /\ nth_error l k = Some x.
+Proof.
+  induction m as [|m IH]; intros l k x H.
+  - destruct k; discriminate.
+  - destruct l; [destruct k; discriminate|]. destruct k.
+    + cbn in H. split; [lia|exact H].
+    + cbn in H. destruct (IH _ _ _ H). split; [lia|assumption].
+Qed.
+
+Lemma In_all_reqs_range : forall outs n m q,
+  In q (all_reqs (skipn n (firstn m outs))) ->
+  exists k x, (n <= k < m)%nat /\ nth_error outs k = Some x /\ In q (reqs_of x).
+Proof.
+  intros outs n m q H. apply In_all_reqs in H as [k [x [H1 H2]]].
+  rewrite nth_error_skipn' in H1. apply nth_error_firstn' in H1 as [H3 H4].
+  exists (n + k)%nat, x. split; [lia|]. split; assumption.
+Qed.
+
+Lemma In_nows : forall ops k r, nth_error ops k = Some (ORound r) -> In (r_now r) (nows ops).
+Proof.
+  induction ops as [|o ops IH]; intros k r H; [destruct k; discriminate|].
+  destruct k.
+  - cbn in H. injection H as ->. left; reflexivity.
+  - cbn [nth_error] in H. specialize (IH _ _ H). destruct o; cbn; auto.
+Qed.
+
+Lemma increasing_nth : forall ops, increasing ops ->
+  forall i k ri rk, (i < k)%nat -> nth_error ops i = Some (ORound ri) -> nth_error ops k = Some (ORound rk) ->
+  r_now ri < r_now rk.
+Proof.
+  unfold increasing. induction ops as [|o ops IH]; intros Hs i k ri rk Hlt Hi Hk; [destruct i; discriminate|].
+  destruct k; [lia|]. cbn [nth_error] in Hk. destruct i.
+  - cbn in Hi. injection Hi as ->. cbn [nows] in Hs. apply StronglySorted_inv in Hs as [_ Hf].
+    rewrite Forall_forall in Hf. apply Hf. eapply In_nows; eauto.
+  - cbn [nth_error] in Hi. apply (IH) with (i := i) (k := k); auto; [|lia].
+    destruct o; cbn [nows] in Hs; auto. apply StronglySorted_inv in Hs as [Hs _]. exact Hs.
+Qed.
+
+(* ------------------------------------------------------------------------------------------- *)
+(* Stamps along a history. *)
+
+Lemma stamps_along : forall ops, increasing ops ->
+  forall i j ri rj erri reqsi relaysi nodesi errj reqsj relaysj nodesj,
+  (i < j)%nat ->
+  nth_error ops i = Some (ORound ri) ->
+  nth_error ops j = Some (ORound rj) ->
+  nth_error (snd (run init ops)) i = Some (OutRound erri reqsi relaysi nodesi) ->
+  nth_error (snd (run init ops)) j = Some (OutRound errj reqsj relaysj nodesj) ->
+  forall a sri a' srj, mem_rm relaysi a sri -> mem_rm relaysj a' srj ->
+  ct_pub (sr_content sri) = ct_pub (sr_content srj) ->
+    sr_stamp sri <= sr_stamp srj
+    /\ (sr_content sri <> sr_content srj -> sr_stamp sri < sr_stamp srj \/ sr_stamp srj = r_now ri).
+Proof.
+  intros ops Hinc i j ri rj erri reqsi relaysi nodesi errj reqsj relaysj nodesj Hlt Hopi Hopj Houti Houtj
+         a sri a' srj Hmi Hmj Hpub.
+  set (outs := snd (run init ops)) in *.
+  destruct (history_round _ _ [] _ _ _ _ _ _ J_init Hopi Houti) as [Hreli [_ Hrqi]]. cbn [app] in Hreli.
+  destruct (history_round _ _ [] _ _ _ _ _ _ J_init Hopj Houtj) as [Hrelj [_ Hrqj]]. cbn [app] in Hrelj.
+  fold outs in Hreli, Hrelj.
+  destruct (Hreli _ _ Hmi) as [[r1 [r2 [qi [Ei1 [Ei2 Ei3]]]]] _].
+  destruct (Hrelj _ _ Hmj) as [[r1' [r2' [qj [Ej1 [Ej2 Ej3]]]]] _].
+  (* the log before round j extends the log at the emission in round i *)
+  assert (Hsplit : all_reqs (firstn j outs)
+                   = (all_reqs (firstn i outs) ++ r1) ++ r2 ++ all_reqs (skipn (S i) (firstn j outs))).
+  { rewrite <- (firstn_skipn (S i) (firstn j outs)) at 1. rewrite firstn_firstn.
+    replace (Nat.min (S i) j) with (S i) by lia.
+    rewrite (firstn_S_nth _ _ _ Houti), !all_reqs_app. unfold all_reqs at 2; cbn [flat_map reqs_of].
+    rewrite app_nil_r, Ei1, <- !app_assoc. reflexivity. }
+  rewrite Hsplit, <- Hpub in Ej2. rewrite <- !app_assoc in Ej2. rewrite (app_assoc (all_reqs (firstn i outs)) r1) in Ej2.
+  rewrite last_ok_app in Ej2.
+  (* stamps of the requests up to the emission in round i *)
+  assert (HA : q_stamp qi <= r_now ri).
+  { apply last_ok_some in Ei2 as [Hin _]. apply in_app_iff in Hin as [Hin|Hin].
+    - rewrite <- (firstn_skipn 0 (firstn i outs)) in Hin. cbn [firstn app] in Hin.
+      apply In_all_reqs_range in Hin as [k [x [Hk [Hx Hq]]]].
+      destruct (out_req _ _ [] _ _ _ J_init Hx Hq) as [rk [_ [_ [Hopk [_ [_ [_ Hs]]]]]]].
+      pose proof (increasing_nth _ Hinc k i rk ri ltac:(lia) Hopk Hopi). lia.
+    - destruct (Hrqi qi) as [_ [_ [_ [_ [_ Hs]]]]]; [rewrite Ei1; apply in_app_iff; left; exact Hin|]. lia. }
+  destruct (last_ok (r2 ++ all_reqs (skipn (S i) (firstn j outs)) ++ r1') (ct_pub (sr_content sri))) as [q|] eqn:EX.
+  - injection Ej2 as ->. apply last_ok_some in EX as [Hin _].
+    assert (HX : r_now ri <= q_stamp qj /\ (r_now ri < q_stamp qj \/ q_stamp qj = r_now ri)).
+    { apply in_app_iff in Hin as [Hin|Hin]; [|apply in_app_iff in Hin as [Hin|Hin]].
+      - destruct (Hrqi qj) as [_ [_ [_ [_ [_ Hs]]]]]; [rewrite Ei1; apply in_app_iff; right; exact Hin|]. lia.
+      - apply In_all_reqs_range in Hin as [k [x [Hk [Hx Hq]]]].
+        destruct (out_req _ _ [] _ _ _ J_init Hx Hq) as [rk [_ [_ [Hopk [_ [_ [_ Hs]]]]]]].
+        pose proof (increasing_nth _ Hinc i k ri rk ltac:(lia) Hopi Hopk). lia.
+      - destruct (Hrqj qj) as [_ [_ [_ [_ [_ Hs]]]]]; [rewrite Ej1; apply in_app_iff; left; exact Hin|].
+        pose proof (increasing_nth _ Hinc i j ri rj Hlt Hopi Hopj). lia. }
+    rewrite Ei3, Ej3. cbn [reg_of_req sr_stamp]. split; [lia|]. intros _. lia.
+  - rewrite Ei2 in Ej2. injection Ej2 as <-. rewrite Ei3, Ej3. split; [lia|].
+    intro Hne. exfalso; apply Hne; reflexivity.
+Qed.
